@@ -20,7 +20,10 @@ def main():
     rest = sys.argv[5:]
     props = prop
     tier = "quick"
+    label = which
     for a in rest:
+        if a.startswith("--label="):
+            label = a.split("=", 1)[1]
         if a.startswith("--props="):
             props = a.split("=", 1)[1]
         if a.startswith("--tier="):
@@ -31,7 +34,7 @@ def main():
                        capture_output=True, text=True)
     res = json.loads(p.stdout)
     confirmed = res.get("tests_with_patch") == "pass" and res["demo_with_patch"] != 0 and res["demo_without_patch"] == 0
-    sid = "%s-%s" % (prop, which)
+    sid = "%s-%s" % (prop, label)
     out = os.path.join(ROOT, "seeded", sid)
     meta = {
         "id": sid,
